@@ -232,7 +232,13 @@ class MPS(DNAS):
         :return: the precision-assignement found by the NAS
         :rtype: Dict[str, Dict[str, Any]]
         """
-        mod, _, _ = convert(self.seed, self._input_example, 'export')
+        # conversion forces `eval()` on the inner model: restore its training status afterwards
+        training_status = [(m, m.training) for m in self.seed.modules()]
+        try:
+            mod, _, _ = convert(self.seed, self._input_example, 'export')
+        finally:
+            for m, status in training_status:
+                m.training = status
         return mod
 
     def summary(self) -> Dict[str, Dict[str, Any]]:
